@@ -30,7 +30,14 @@ type c17family struct {
 
 type c17limit struct{ limit int }
 
+// c17suppress: when set, the family's grammar gets SuppressError around half of its nonterminal references (the
+// left-recursive ones included) before it is built - the same wrapping for the n and the 2n run of a variant
+var c17suppress *rand.Rand
+
 func c17gram(g *gram.Grammar, tick func(ctx *parsley.Context)) parsley.Parser {
+	if c17suppress != nil {
+		g.SuppressSome(c17suppress.Intn)
+	}
 	b := gram.Build(g, &gram.Hooks{Inside: func(nt int, p parsley.Parser) parsley.Parser {
 		return parser.Func(func(ctx *parsley.Context, lrc data.IntMap, pos parsley.Pos) (parsley.Node, data.IntSet, parsley.Error) {
 			tick(ctx)
@@ -403,7 +410,12 @@ func c17run(f c17family, seed int64, n int, limit int, where string) (res c17res
 			panic(c17limit{limit})
 		}
 	}
+	c17suppress = nil
+	if seed%3 == 1 {
+		c17suppress = rand.New(rand.NewSource(seed ^ 0x5e55))
+	}
 	p, in := f.build(r, n, tick)
+	c17suppress = nil
 	in = c17corrupt(in, where)
 	input = in
 	file := text.NewFile("f", []byte(in))
